@@ -32,10 +32,22 @@ Definition d_hstat (v : val) : hstat :=
   {| s_status := dN (nth_val 0 v); s_text := dopt dstr (nth_val 1 v);
      s_headers := dopt d_pairs (nth_val 2 v) |}.
 
+Definition d_ector (v : val) : ector :=
+  let t := dZ (nth_val 0 v) in
+  if t =? 0 then CMethodNotAllowed (dlist dstr (nth_val 1 v))
+  else if t =? 1 then CUnauthorized (dlist dstr (nth_val 1 v))
+  else if t =? 2 then CRetryAfter (dopt dstr (nth_val 1 v))
+  else if t =? 3 then CRange (dstr (nth_val 1 v))
+  else CPlain.
+
+(* payload tag 3: an HTTPError described by its constructor: [3; ctor; herr with the headers=
+   argument in the headers slot] - the error's headers are computed by the model *)
 Definition d_payload (v : val) : payload :=
   let t := dZ (nth_val 0 v) in
   if t =? 0 then PError (d_herr (nth_val 1 v))
-  else if t =? 1 then PStatus (d_hstat (nth_val 1 v)) else PNone.
+  else if t =? 1 then PStatus (d_hstat (nth_val 1 v))
+  else if t =? 3 then PError (with_ctor (d_ector (nth_val 1 v)) (d_herr (nth_val 2 v)))
+  else PNone.
 
 Definition d_exc (v : val) : exc :=
   {| x_mro := dlist dnat (nth_val 0 v); x_payload := d_payload (nth_val 1 v) |}.
@@ -114,6 +126,15 @@ Definition run (v : val) : val :=
     let reg := replay init_registry (d_hist hist) in
     L [I 1; vopt v_hid (find_error_handler reg (dlist dnat mro));
        vopt v_hid (spec_handler (d_hist hist) (dlist dnat mro))]
+  | L [I 3; hist; ops] =>
+    (* one app over time: [0; registration] | [1; mro] *)
+    let d_op (o : val) : op :=
+      if dZ (nth_val 0 o) =? 0
+      then match d_hist (L [nth_val 1 o]) with r :: _ => OReg r | [] => OLookup [] end
+      else OLookup (dlist dnat (nth_val 1 o)) in
+    let ops' := dlist d_op ops in
+    L [I 1; vlist (vopt v_hid) (run_ops (replay init_registry (d_hist hist)) ops');
+       vlist (vopt v_hid) (spec_ops (d_hist hist) ops')]
   | L [I 2; hist; scripts; x; oh; esc; st] =>
     L [I 1; vlist vnat (oracle (d_hist hist) (dlist d_script scripts) (d_exc x)
                                (dopt d_hid oh) (dbool esc) (dN st))]
